@@ -644,4 +644,221 @@ def protoOf (w : Wrapper) (resProto : List Proto) : List (List Proto) :=
   (match w.this with | some _ => [[Proto.shadow false]] | none => []) ++
     [resProto] ++ w.args.map (·.proto) ++ [w.res.protoTail]
 
+/-! ## (d) library language, need of a wrapper, body order, `C_error_pattern`, `deref(scalar)`,
+enum pointer results
+
+`wrap_function` for `language: c`: no conversion is ever made from a typemap (`cxx_var = c_var` for every
+argument without a statement-declared local, `c_local_var` stays `""`, no `cxx_to_c` line), a wrapper is
+emitted only when code is inserted; otherwise the C caller (and Fortran) calls the library function
+under its own name. -/
+
+inductive Lang where
+  | c | cxx
+  deriving DecidableEq, Repr
+
+/-- per-argument plan: for `language: c` the typemap's `c_to_cxx` is never applied -/
+def assembleArgL (l : Lang) (d : ArgDesc) (e : Entry) : ArgPlan :=
+  match l with
+  | .cxx => assembleArg d e
+  | .c => assembleArg { d with conv := 0 } e
+
+/-- the result is an enum behind a pointer / reference (wrapc: `CXX_ast.is_indirect() and
+    result_typemap.name in self.enum_typemaps`) -/
+def FuncDesc.enumIndirect (f : FuncDesc) : Bool := f.res.isEnum && (f.res.isPtr || f.res.isRef)
+
+/-- `ResConv.other 7`: `static_cast<{c_const}int *>(static_cast<{c_const}void *>({cxx_addr}{cxx_var}))` -/
+def convEnumPtr : ResConv := .other 7
+
+/-- result plan per language.  c++: as `assembleRes`, except that an enum behind a pointer /
+    reference is converted as a pointer and returned without prefix (after fix 0e96fba).
+    c: `c_local_var` is ignored and no `cxx_to_c` conversion is made. -/
+def assembleResL (l : Lang) (f : FuncDesc) (e : Entry) (resultAsArg : Bool) : ResPlan :=
+  match l with
+  | .c => assembleRes { f with res := { f.res with conv := 0 } } { e with cLocal := 0 } resultAsArg
+  | .cxx =>
+    let p := assembleRes f e resultAsArg
+    if f.enumIndirect && f.isFunction && !resultAsArg && e.call.isEmpty && e.cLocal = 0 && f.res.conv ≠ 0 then
+      { p with conv := convEnumPtr
+               ret := if !e.ret.isEmpty then p.ret else if f.derefScalar then .derefCxx else .cvar 0 }
+    else p
+
+def assembleCL (l : Lang) (v : Vocab) (tbl : List Entry) (t : Tree) (f : FuncDesc) : Wrapper :=
+  let re := selectEntry tbl t (f.resKey v)
+  { this := thisPlan f
+    args := f.args.map (fun d => assembleArgL l d (selectEntry tbl t (d.key v)))
+    res := assembleResL l f re (f.args.any (·.isResult)) }
+
+/-- what does not come from the declaration: options, patterns -/
+structure FuncOpts where
+  forceWrapper : Bool        -- options.C_force_wrapper
+  externC : Bool             -- options.C_extern_C
+  hasPattern : Bool          -- `C_error_pattern` names an entry of `patterns` (with the generated suffix)
+  hasSplicer : Bool          -- a `c` splicer in the function's `splicer` dict
+  deriving DecidableEq, Repr
+
+def isAux : Nat → Bool
+  | 1 | 2 | 3 => false
+  | _ => true
+
+/-- `need_wrapper` contributions of one statement entry: `build_proto_list` (metadata arguments)
+    and `add_code_from_statements` (pre_call / post_call present) -/
+def entryNeeds (bufs : List Nat) (e : Entry) : Bool :=
+  bufs.any isAux || !e.pre.isEmpty || !e.post.isEmpty
+
+/-- `need_wrapper` at the end of `wrap_function` -/
+def needWrapper (l : Lang) (o : FuncOpts) (f : FuncDesc) (resE : Entry) (argEs : List (ArgDesc × Entry)) : Bool :=
+  o.forceWrapper || (l = .cxx && !o.externC) || f.isMethod ||
+  entryNeeds resE.bufArgs resE ||
+  argEs.any (fun de => de.1.isResult || entryNeeds de.2.bufArgs de.2) ||
+  (f.isFunction && entryNeeds resE.bufExtra resE) ||
+  (resE.retType = 0 && f.derefScalar) || o.hasPattern || o.hasSplicer
+
+def needWrapperOf (l : Lang) (o : FuncOpts) (v : Vocab) (tbl : List Entry) (t : Tree) (f : FuncDesc) : Bool :=
+  needWrapper l o f (selectEntry tbl t (f.resKey v)) (f.args.map (fun d => (d, selectEntry tbl t (d.key v))))
+
+/-- whose format dictionary the pattern is expanded in (`fmt_pattern`): `{cxx_var}` of the pattern is
+    the variable holding the C++ result, or - for a subroutine - nothing of the call -/
+inductive PatScope where
+  | func                     -- subroutine: `fmt_func`
+  | result                   -- function: `fmt_result`
+  | arg (i : Nat)            -- result returned through argument `i`: that argument's `fmt_arg`
+  deriving DecidableEq, Repr
+
+def findResultArg : List ArgDesc → Nat → Option Nat
+  | [], _ => none
+  | d :: ds, i => match findResultArg ds (i + 1) with
+    | some j => some j          -- the last `is_result` argument assigns `fmt_pattern` last
+    | none => if d.isResult then some i else none
+
+def patScope (f : FuncDesc) : PatScope :=
+  match findResultArg f.args 0 with
+  | some i => .arg i
+  | none => if f.isFunction then .result else .func
+
+/-- one statement group of the generated body -/
+inductive BodyOp where
+  | argPre (i : Nat) (r : Rhs)       -- conversion / pre_call line of argument `i`
+  | resPre (code : Nat)              -- pre_call line of the result entry (`T *rv = new T;`)
+  | call (s : CallShape)
+  | errorPattern (sc : PatScope)     -- `// C_error_pattern` + the user's block
+  | argPost (i : Nat) (p : PostOp)
+  | resPost (code : Nat)             -- post_call line of the result entry (capsule fields, struct cast back)
+  | conv (c : ResConv)               -- `{c_rv_decl} = {c_val};`
+  | ret (r : RetShape)
+  deriving DecidableEq, Repr
+
+def argPres : List ArgPlan → Nat → List BodyOp
+  | [], _ => []
+  | p :: ps, i => p.pre.map (BodyOp.argPre i) ++ argPres ps (i + 1)
+
+def argPosts : List ArgPlan → Nat → List BodyOp
+  | [], _ => []
+  | p :: ps, i => p.post.map (BodyOp.argPost i) ++ argPosts ps (i + 1)
+
+def convOps (p : ResPlan) : List BodyOp :=
+  match p.conv with
+  | .none => []
+  | c => [.conv c]
+
+def retOps (p : ResPlan) : List BodyOp :=
+  match p.ret with
+  | .none => []
+  | r => [.ret r]
+
+def patOps : Option PatScope → List BodyOp
+  | some sc => [.errorPattern sc]
+  | none => []
+
+/-- `C_code = pre_call + call_code + post_call_pattern + post_call + final_code + return_code`
+    (`final` is empty for every plain entry); `resE`: the result's statement entry -/
+def bodyOf (w : Wrapper) (resE : Entry) (pat : Option PatScope) : List BodyOp :=
+  (argPres w.args 0 ++ resE.pre.map (fun l => BodyOp.resPre l.1)) ++ [.call w.res.call] ++ patOps pat ++
+  (argPosts w.args 0 ++ resE.post.map (fun l => BodyOp.resPost l.1)) ++ (convOps w.res ++ retOps w.res)
+
+def BodyOp.isPattern : BodyOp → Bool
+  | .errorPattern _ => true
+  | _ => false
+def BodyOp.isCall : BodyOp → Bool
+  | .call _ => true
+  | _ => false
+def BodyOp.isBefore : BodyOp → Bool      -- statements placed before the call
+  | .argPre _ _ | .resPre _ => true
+  | _ => false
+def BodyOp.isAfter : BodyOp → Bool       -- statements placed after the pattern
+  | .argPost _ _ | .resPost _ | .conv _ | .ret _ => true
+  | _ => false
+
+/-- the user's block: reads the variable of its scope right after the call; `some v` = `return v;` -/
+abbrev Pattern := Den → Option Val
+
+/-- what `{cxx_var}` of the result scope denotes right after the call clause -/
+def patVar (p : ResPlan) (r : CxxRet) (fresh : Nat) : Den :=
+  match p.call with
+  | .assign => cxxDen r
+  | .assignNew | .ctorNew => .value (.ptr (.heap fresh))
+  | _ => .value .undef
+
+/-- result side with the error block in its place: after the call clause (for a constructor the call
+    clause already filled the capsule), before post_call (capsule fields of a class result, struct cast),
+    the `cxx_to_c` conversion and the return statement -/
+def runResultP (h : Heap) (p : ResPlan) (g : Option Pattern) (isPtr : Bool) (r : CxxRet) (tail : Option Nat)
+    (fresh idtor : Nat) : CResult :=
+  match g with
+  | none => runResult h p isPtr r tail fresh idtor
+  | some g =>
+    match g (patVar p r fresh) with
+    | none => runResult h p isPtr r tail fresh idtor
+    | some v =>
+      ⟨some v, match p.call, tail with
+               | .ctorNew, some t => some (t, .capsule (some fresh) idtor)
+               | _, _ => none⟩
+
+/-- `return *{cxx_var};` (deref(scalar)): the pointee; a null pointer is dereferenced without a check -/
+def runDerefScalar (h : Heap) (r : CxxRet) : Val :=
+  match r with
+  | .ptr (some a) => h a
+  | _ => .undef
+
+/-- result of a wrapper whose return statement is `return *{cxx_var};` -/
+def runResultD (h : Heap) (p : ResPlan) (isPtr : Bool) (r : CxxRet) (tail : Option Nat) (fresh idtor : Nat) : CResult :=
+  match p.call, p.ret with
+  | .assign, .derefCxx => ⟨some (runDerefScalar h r), none⟩
+  | _, _ => runResult h p isPtr r tail fresh idtor
+
+/-- enum pointer conversion on the result side (`convEnumPtr`): a pointer stays the pointer, a reference
+    becomes the address of the object (`{cxx_addr}` is `&`) -/
+def enumPtrDen : Den → Den
+  | .value (.ptr a) => .value (.ptr a)
+  | .value .null => .value .null
+  | .object a => .value (.ptr (.heap a))
+  | _ => .value .undef
+
+def runResultE (h : Heap) (p : ResPlan) (isPtr : Bool) (r : CxxRet) (tail : Option Nat) (fresh idtor : Nat) : CResult :=
+  match p.call, p.ret with
+  | .assign, .cvar pre =>
+    if p.conv = convEnumPtr then ⟨some (applyPrefix h pre (enumPtrDen (cxxDen r))), none⟩
+    else runResult h p isPtr r tail fresh idtor
+  | _, _ => runResult h p isPtr r tail fresh idtor
+
+/-- a direct call of the library function (no wrapper): every parameter receives the C value itself -/
+def directArg (h : Heap) (m : Mode) (c : Val) : Seen :=
+  resolve ⟨c, .undef⟩ (evalCall h ⟨c, .undef⟩ m (.plain .c))
+
+def directArgs (h : Heap) : List Mode → List Val → List Seen
+  | m :: ms, c :: cs => directArg h m c :: directArgs h ms cs
+  | _, _ => []
+
+/-- a direct call returns the C function's value unchanged -/
+def directRet : CxxRet → Option Val
+  | .void => none
+  | .val v => some v
+  | .ptr a => some (optPtr a)
+  | .ref a => some (.ptr (.heap a))
+
+/-- what the C caller reaches under the generated C name: the wrapper, or the library function itself -/
+def runEntry (h : Heap) (need : Bool) (w : Wrapper) (modes : List Mode) (cargs : List Val)
+    (resIsPtr : Bool) (r : CxxRet) (tail : Option Nat) (fresh idtor : Nat) : CalleeView × CResult :=
+  if need then runWrapper h w modes cargs resIsPtr r tail fresh idtor
+  else (⟨none, directArgs h modes cargs⟩, ⟨directRet r, none⟩)
+
 end Shroud.WrapC
